@@ -4,18 +4,21 @@ import CircusModel.Drv.Argv
 /-
 Driver for the managed-sockets layer (C07), tag `sock`.
 
-  run <base> <nsock> (<name> <reuseport> <addr>)*nsock
-      <nw> (<useSockets> <cmd> <args> <np> <pipeOut> <pipeErr> <maxRetry>)*nw
+  run <base> <nsock> <spec>*nsock
+      <nw> (<useSockets> <cmd> <args> <np> <pipeOut> <pipeErr> <maxRetry> <stdin_socket or ~>)*nw
       <nops> <op>*nops
     -> <segment> ( "|" <segment> )*nops          one segment for the state after setup, one per op
 
 `base`: descriptors 0 .. base-1 are open (non-inheritable files of the environment) and stay so.
 <op> = I | S <w> | D <i> | R <w> | L <w> | + <w> <k> | - <w> <k> | O <inh> | C <i> | X
-<segment> = <nrec> <rec>* <ntab> <ent>* <nsock> (<name> <optfd>)* <nproc> (<pid> <w> <wid> <n> <fd>*n)* <phase> <res>
+       | G <n> <spec>*n <n> <name>*n <n> <name>*n        (reload: new socket sections, order of the deleted, of the added)
+<spec> = <name> <reuseport> <addr> <s|q|d> <unix> <replace> <opts>
+<segment> = <nrec> <rec>* <ntab> <ent>* <nsock> (<name> <optfd>)* <nproc> (<pid> <w> <wid> <n> <fd>*n)* <phase> <nfiles> <addr>* <res>
             (<res>: `E`/`ok` = `initialize` raised or not, `T`/`F`/`R` = `spawn_process` answered True / False / raised, else `-`)
             (the records are the ones this op added, oldest first; the table lists the open
              descriptors >= base)
-<rec> = <w> <closeFds> <phase> <n> (<name> <optfd>)*n <n> <arg>*n <n> <ent>*n <n> <fd>*n
+<rec> = <w> <closeFds> <phase> <n> (<name> <optfd>)*n <n> <arg>*n <n> <ent>*n <n> <fd>*n (~ | 0 <ent>)
+        (last: what `preexec_fn` dup2s onto descriptor 0 of the child)
 <ent> = <fd> <id> <s|o> <inheritable> <listening> <optaddr> <bindSer>
 <optfd>, <optaddr>: a number or `~`; <phase> = f | r | x; <args> as in the `argv` driver.
 Socket names must be pairwise different (a `dict`), else `bad-op`.
@@ -24,11 +27,22 @@ namespace Circus.Sockets.Drv
 open Circus.Proto Circus.Sockets
 open Circus.Argv.Drv (P tok liftO pStr pNat pBool pList pArgs)
 
+def pTyp : P SockType := do
+  match (← tok) with
+  | "s" => pure .stream
+  | "q" => pure .seqpacket
+  | "d" => pure .dgram
+  | _ => liftO none
+
 def pSpec : P Spec := do
   let name ← pStr
   let reuseport ← pBool
   let addr ← pNat
-  pure { name, reuseport, addr }
+  let typ ← pTyp
+  let unix ← pBool
+  let replace ← pBool
+  let opts ← pNat
+  pure { name, reuseport, addr, typ, unix, replace, opts }
 
 def pWatcher : P Watcher := do
   let useSockets ← pBool
@@ -38,7 +52,8 @@ def pWatcher : P Watcher := do
   let pipeOut ← pBool
   let pipeErr ← pBool
   let maxRetry ← pNat
-  pure { useSockets, cmd, args, numprocesses, pipeOut, pipeErr, maxRetry }
+  let stdinSocket ← Circus.Argv.Drv.pOptStr
+  pure { useSockets, cmd, args, numprocesses, pipeOut, pipeErr, maxRetry, stdinSocket }
 
 def pOp : P Op := do
   match (← tok) with
@@ -52,6 +67,12 @@ def pOp : P Op := do
   | "O" => do pure (.openOther (← pBool))
   | "C" => do pure (.closeOther (← pNat))
   | "X" => pure .stop
+  | "G" => do
+    let new ← pList pSpec
+    let dorder ← pList pStr
+    let aorder ← pList pStr
+    if ¬ (new.map (·.name)).Nodup then liftO none else
+    pure (.reloadSockets new dorder aorder)
   | _ => liftO none
 
 def showOptNat : Option Nat → String
@@ -79,7 +100,10 @@ def showFds (d : List (Str × Option Nat)) : String :=
 def showRec (base : Nat) (r : Rec) : String :=
   " ".intercalate [toString r.w, encBool r.closeFds, showPhase r.phase, showFds r.socketsFds,
     showCounted (r.argv.map encCps), showCounted (entries base r.inherited),
-    showCounted (r.temp.map toString)]
+    showCounted (r.temp.map toString),
+    (match r.fd0 with
+     | none => "~"
+     | some d => "0 " ++ showEnt 0 d)]
 
 def showProc (p : Proc) : String :=
   " ".intercalate ([toString p.pid, toString p.w, toString p.wid, toString p.pipeFds.length] ++ p.pipeFds.map toString)
@@ -87,7 +111,8 @@ def showProc (p : Proc) : String :=
 def showSeg (base : Nat) (nOld : Nat) (s : State) : String :=
   let recs := (s.log.take (s.log.length - nOld)).reverse
   " ".intercalate [showCounted (recs.map (showRec base)), showCounted (entries base s.fdt),
-    showFds (s.socks.map (fun k => (k.name, k.fd))), showCounted (s.procs.map showProc), showPhase s.phase]
+    showFds (s.socks.map (fun k => (k.name, k.fd))), showCounted (s.procs.map showProc), showPhase s.phase,
+    showCounted (s.files.map toString)]
 
 /-- what the call answered: `E` = `initialize` raised, `T`/`F` = result of `spawn_process` -/
 def opResult (s : State) : Op → String
